@@ -1037,7 +1037,17 @@ pub fn atom() -> impl Strategy<Value = E> {
         6 => (0u8..4).prop_map(E::Col),
         1 => (0u8..4).prop_map(E::TCol),
         5 => (-2i64..6).prop_map(E::Int),
-        1 => prop_oneof![Just("a".to_string()), Just("ab".to_string()), Just("%a%".to_string()), Just("1".to_string())].prop_map(E::Text),
+        1 => prop_oneof![
+            Just("a".to_string()),
+            Just("ab".to_string()),
+            Just("%a%".to_string()),
+            Just("1".to_string()),
+            Just("it's".to_string()),
+            Just("a\\b".to_string()),
+            Just("\u{1a}\n".to_string()),
+            Just("é😀".to_string())
+        ]
+        .prop_map(E::Text),
         1 => any::<bool>().prop_map(E::Bool),
         1 => Just(E::Null),
         1 => (0i64..3).prop_map(E::Const),
